@@ -39,6 +39,8 @@ HEX = "0123456789ABCDEF"
 NONASCII = "äßéñ€中日\u0080߿ࠀ퟿￿\U00010000\U0001F600\U0010FFFF℀Ä"
 RESERVED_MIX = "/?&=%#+;:@ []"
 CONTROLS = "\x00\t\n\r\x7f\x1f"
+RAW_NONASCII_HOST = "äÄİßǄ８Ａ中é"          # none of them normalises (NFKC) to a delimiter
+NFKC_DELIMS = ["h℀", "h／x", "a＃b", "a＠b", "a：b", "a？b", "℁"]   # normalise to text containing / ? # @ :
 
 def is_surrogate(c): return 0xD800 <= ord(c) <= 0xDFFF
 def valid_str(s): return not any(is_surrogate(c) for c in s)
@@ -190,6 +192,13 @@ def rand_host(rng):
             elif a < 0.93: c = rng.choice("äÄ中\U0001F600"); atoms.append((pct(c, rng), c))
             elif a < 0.985: c = rng.choice(SUB_DELIMS); atoms.append((c, c))
             else: c = rng.choice("/%:@ [#?"); atoms.append((pct(c, rng), c))
+        if rng.random() < 0.12:
+            # raw non-ASCII characters (outside the model: oracle-only). SplitResult.hostname lower-cases (Unicode) up to the first "%" only.
+            for _ in range(rng.randint(1, 3)):
+                c = rng.choice(RAW_NONASCII_HOST); pos = rng.randrange(len(atoms) + 1)
+                before_pct = "%" not in "".join(a for a, _ in atoms[:pos])
+                atoms.insert(pos, (c, c.lower() if before_pct else c))
+            # atoms after an inserted raw character keep their expectation: ASCII lower-casing is applied to the whole decoded host anyway
         text = "".join(a for a, _ in atoms); dec = "".join(b for _, b in atoms)
         return text, {"kind": "name", "host": dec}
     if k < 0.75:
@@ -235,7 +244,9 @@ def rand_malformed(rng):
     """-> (text, class); class names what RFC 7252 / the documentation of set_request_uri says about it"""
     u, exp = rand_uri(rng)
     scheme_end = u.index("://")
-    k = rng.randrange(8)
+    k = rng.randrange(9)
+    if k == 8:
+        return u[:scheme_end + 3] + rng.choice(NFKC_DELIMS) + rng.choice(["", "/", ":80/p?q"]), "nfkc"
     if k == 0:
         return rng.choice([u[scheme_end + 1:], u[scheme_end + 3:].split(":")[0].split("[")[0] + "/x", "/a/b?c", "", "?q", "//h/p", "a/b"]), "no-scheme"
     if k == 1:
@@ -342,7 +353,7 @@ def rand_split_input(rng):
         pos = rng.randrange(len(s)); s = s[:pos] + rng.choice(":[]@%.0aZ") + s[pos:]
     return s if all(ord(c) < 128 for c in s.split("%")[0].rpartition("@")[2]) else "foo"
 
-STREAM_WEIGHTS = [("roundtrip", 30), ("decompose", 16), ("compose", 16), ("uri_arbitrary", 14), ("quote", 8), ("unquote", 6), ("hostportjoin", 5), ("hostportsplit", 5)]
+STREAM_WEIGHTS = [("roundtrip", 30), ("decompose", 16), ("compose", 16), ("uri_arbitrary", 14), ("quote", 8), ("unquote", 6), ("hostportjoin", 5), ("hostportsplit", 5), ("reuse_after_reject", 4)]
 
 class C16(fw.Property):
     id = "C16"
@@ -367,14 +378,18 @@ class C16(fw.Property):
             "range with reserved characters, empty segments, random over-escaping and hex case) through set_request_uri -> get_request_uri -> set_request_uri, compared with the "
             "model and with the expectation derived from the generator's structure; decompose = malformed classes (no scheme/host, fragment, user info, port, non-UTF-8 escapes, "
             "brackets, foreign scheme) and set_uri_host=False; compose = option sets (degenerate and not) through UndecidedRemote + get_request_uri and back; uri_arbitrary = mutated "
-            "and random strings (model where the netloc is ASCII, else oracle only); quote/unquote/hostportjoin/hostportsplit = kernel streams. Non-trivial = accepted with a "
+            "and random strings (model where the netloc is ASCII, else oracle only); quote/unquote/hostportjoin/hostportsplit = kernel streams; reuse_after_reject = a rejected URI then an accepted one on the same message (oracle only). "
+            "Raw non-ASCII hosts (ä Ä İ ß Ǆ full-width) and NFKC-delimiter hosts are generated in roundtrip / decompose (oracle only, outside the model). Non-trivial = accepted with a "
             "non-empty path, query or host to convert, or rejected; distinct by full input.")
     trusted_base = ["str translator translate/jobs/c16.py + Model/C16Str.v intrinsics (validated by the quote/hostportjoin streams on every run)",
                     "hand-written Model/C16.v incl. its model of urllib.parse.urlsplit/unquote/urlunparse of CPython 3.12 (validated by the correspondence streams)",
                     "ipaddress.ip_address / str(): supplied to the model as a table, assumed idempotent on its normal forms in the theorems",
                     "CPython str.lower / unicodedata for non-ASCII network locations (not modelled: oracle-only cases)"]
     assumptions = ["strings are sequences of Unicode scalar values wherever quoting is involved (a lone surrogate makes str.encode raise, modelled as UnicodeEncodeError)",
-                   "get_request_uri is modelled for request messages without Uri-Path-Abbrev, client side"]
+                   "get_request_uri is modelled for request messages without Uri-Path-Abbrev, client side",
+                   "set_request_uri is applied to a fresh Message (as Message(uri=...) does) and a Message on which it raised is discarded: the Uri-Path / Uri-Query / remote "
+                   "it assigns before the port and literal checks stay on the message after a late MalformedUrlError (not modelled; the reuse_after_reject stream checks that "
+                   "nothing of it survives the next accepted call); a message that already carries Uri-Host / Proxy-Uri from an earlier ACCEPTED call is application misuse"]
 
     def setup(self):
         import aiocoap.message  # extends uses_netloc
@@ -403,6 +418,11 @@ class C16(fw.Property):
             elif stream == "unquote": yield stream, {"s": rand_unquote_input(rng)}
             elif stream == "hostportjoin":
                 h, p = rand_hostport(rng); yield stream, {"host": h, "port": p}
+            elif stream == "reuse_after_reject":
+                # a rejected call, then an accepted one on the SAME message (oracle-only): nothing of the rejected URI may survive
+                bad = rng.choice([None, "coap://h:x/a/b?c=d", "coap://h%FF/a/b?c", "coap://[v1.x]/a?b", "coap://h/a?%FF"]) or rand_malformed(rng)[0]
+                good = rng.choice(["coap://h2", "coap://1.2.3.4", "coap://[::1]/", "coap://h2/?"]) if rng.random() < 0.5 else rand_uri(rng)[0]
+                yield stream, {"bad": bad, "good": good}
             else: yield stream, {"s": rand_split_input(rng)}
 
     # ---------------------------------------------------------------- implementation
@@ -412,6 +432,21 @@ class C16(fw.Property):
         if stream in ("roundtrip", "uri_arbitrary"): return obs_roundtrip(inp["uri"])
         if stream == "decompose": return obs_decompose(inp["uri"], inp.get("set_uri_host", True))[0]
         if stream == "compose": return obs_compose(inp)
+        if stream == "reuse_after_reject":
+            import aiocoap
+            m = aiocoap.Message(code=aiocoap.GET)
+            try: m.set_request_uri(inp["bad"]); first = "accepted"
+            except Exception as e: first = exn(e)
+            left = {"path": list(m.opt.uri_path), "query": list(m.opt.uri_query), "host": m.opt.uri_host, "remote": None if m.remote is None else m.remote.hostinfo}
+            def full(mm):
+                return {"proxy": mm.opt.proxy_uri, "host": mm.opt.uri_host, "port": mm.opt.uri_port, "path": list(mm.opt.uri_path), "query": list(mm.opt.uri_query),
+                        "remote": None if mm.remote is None else [mm.remote.scheme, mm.remote.hostinfo]}
+            try: m.set_request_uri(inp["good"]); after = full(m)
+            except Exception as e: after = exn(e)
+            f = aiocoap.Message(code=aiocoap.GET)
+            try: f.set_request_uri(inp["good"]); fresh = full(f)
+            except Exception as e: fresh = exn(e)
+            return {"first": first, "left": left, "after": after, "fresh": fresh}
         if stream == "quote":
             f = {"path": msg._quote_for_path, "query": msg._quote_for_query, "nonascii": quote_nonascii}[inp["which"]]
             try: return f(inp["s"])
@@ -547,6 +582,13 @@ class C16(fw.Property):
                     return ("C16:decompose-wrong:remote", "%r -> remote %r" % (uri, d1["hostinfo"]))
             if stream != "decompose": return self._check_roundtrip(uri, d1, res["u2"], res["d2"], res["u3"])
             return None
+        if stream == "reuse_after_reject":
+            # "rejected ... and nothing else": what a rejected call leaves on the message (Uri-Path / Uri-Query / remote are assigned before the
+            # port and literal checks, see notes) must not survive the next accepted call on the same message
+            if res["first"] == "accepted" or (isinstance(res["first"], str) and res["first"] not in self.DOCUMENTED): return None
+            if res["after"] != res["fresh"]:
+                return ("C16:rejected-call-leaks", "after the rejected %r (left: %r) set_request_uri(%r) gives %r, on a fresh message %r" % (inp["bad"], res["left"], inp["good"], res["after"], res["fresh"]))
+            return None
         if stream == "compose":
             o = inp
             if o.get("proxy_uri") is not None:
@@ -560,7 +602,8 @@ class C16(fw.Property):
                             or ("[" not in o["hostinfo"] and "]" not in o["hostinfo"] and
                                 ((h is not None and re.fullmatch(r"[A-Za-z0-9._~-]*", sp[0] or "")) or re.fullmatch(r"[a-z0-9._~-]+", sp[0] or "")))))
             nondegenerate = (o["path"] != [""] and o["query"] != [""] and all(valid_str(t) for t in texts) and hostinfo_ok
-                             and (h is None or (regname_safe_lower(h) and not looks_ipv4(h))) and (o.get("uri_port") is None or 0 < o["uri_port"] <= 65535)
+                             and (h is None or (h != "" and not any("A" <= c <= "Z" for c in h) and ip_norm(h.removeprefix("[").removesuffix("]")) is None and not looks_ipv4(h)))
+                             and (o.get("uri_port") is None or 0 < o["uri_port"] <= 65535)
                              and not o.get("proxy_scheme"))
             if not nondegenerate: return None
             if res["u"].startswith("exn:"): return ("C16:compose-exception:" + res["u"][4:], "non-degenerate option set %r: get_request_uri raised %s" % (o, res["u"]))
@@ -609,6 +652,9 @@ class C16(fw.Property):
 
     def nontrivial(self, stream, inp, res):
         key = fw.jdump([stream, {k: v for k, v in inp.items() if k != "expect"}])
+        if stream == "reuse_after_reject":
+            lf = res.get("left", {}) if isinstance(res, dict) else {}
+            return key if (res.get("first", "").startswith("exn:") and (lf.get("path") or lf.get("query") or lf.get("remote"))) else None
         if stream in ("roundtrip", "uri_arbitrary"):
             d1 = res.get("d1") if isinstance(res, dict) else None
             if isinstance(d1, dict) and "proxy" not in d1 and not (d1["path"] or d1["query"] or d1["host"]): return None
